@@ -702,7 +702,26 @@ func main() {
 			if err != nil {
 				continue
 			}
-			addDir(filepath.Join(hdir, e.Name()), strings.TrimSpace(string(tgt)))
+			dst := strings.TrimSpace(string(tgt))
+			// The harness binary must not carry the package's own tests (some bind ports or
+			// chdir in init/TestMain): replace every existing _test.go by an empty stub.
+			if ents2, err := os.ReadDir(filepath.Join(*repo, dst)); err == nil {
+				for _, e2 := range ents2 {
+					if e2.IsDir() || !strings.HasSuffix(e2.Name(), "_test.go") {
+						continue
+					}
+					orig := filepath.Join(*repo, dst, e2.Name())
+					f, err := parser.ParseFile(token.NewFileSet(), orig, nil, parser.PackageClauseOnly)
+					if err != nil {
+						continue
+					}
+					stub := filepath.Join(*out, "stubs", dst, e2.Name())
+					os.MkdirAll(filepath.Dir(stub), 0o755)
+					os.WriteFile(stub, []byte("package "+f.Name.Name+"\n"), 0o644)
+					overlay[orig] = stub
+				}
+			}
+			addDir(filepath.Join(hdir, e.Name()), dst)
 		}
 	}
 	ov, _ := json.MarshalIndent(map[string]interface{}{"Replace": overlay}, "", " ")
